@@ -40,9 +40,13 @@ def main(tier, seed, replay):
     try:
         if replay:
             build()
-            if json.load(open(replay)).get("layer") == "A3-real-rustc":
+            layer = json.load(open(replay)).get("layer")
+            if layer == "A3-real-rustc":
                 import c19_a3
                 return c19_a3.replay(replay)
+            if layer == "A2-miri":
+                import c19_a2
+                return c19_a2.replay(replay)
             rc, out = sh([BIN, "replay", replay, "--shim", SHIM])
             print(out, end="")
             return rc
@@ -96,9 +100,19 @@ def do_check(tier, seed, t0):
             log("  %s: %s" % (v["replay"], v["what"]))
         layers["A3_real_rustc"] = {k: a3[k] for k in a3 if k != "violations"}
 
+    # ---- layer A2 (thorough only): the session inside Miri
+    a2 = None
+    if tier == "thorough" and not viol_lines:
+        import c19_a2
+        a2 = c19_a2.run(seed)
+        for v in a2["violations"]:
+            viol_lines.append("VIOLATION property=C19 replay=%s" % v["replay"])
+            log("  %s: %s" % (v["replay"], v["what"]))
+        layers["A2_miri_session"] = {k: a2[k] for k in a2 if k != "violations"}
+
     wall = time.time() - t0
     coverage = {
-        "evaluations": a["requests"] + (a3["module_comparisons"] if a3 else 0),
+        "evaluations": a["requests"] + (a3["module_comparisons"] if a3 else 0) + (a2["observations"] if a2 else 0),
         "distinct_nontrivial": a["distinct_nontrivial_contexts"],
         "rule": "one evaluation = one expansion request (derive, item) served by the real expanders of /repo/impl/src inside a simulated compiler session "
                 "(1..4 worker threads released one at a time by the simulator; seeded request order, noise requests, repeats; seeded entropy behind an interposed getrandom, "
